@@ -234,7 +234,7 @@ def inmem_written(W, mth):
             out.add("?%s.%s" % (o.field, o.method))
     for s in stores:
         t = s.target
-        if m(S.self_field("written"), t) is not None or m(S.self_field("committed"), t) is not None:
+        if S.is_flag_store(W, s):
             continue
         if t[0] == "field" and t[2] == "latest_version_id":
             out.add("client.latest")
